@@ -16,7 +16,7 @@ ID = "C07"
 LEVEL = "model_checking"
 RULE = (
     "all ordered pairs of non-empty masks of G1(6,1), G2(2,3,1), G2(3,1,1), G3(1,2,3,1), G3(2,1,3,1), G3(2,3,1,1) with embedding in frames of width 1 and 3 and "
-    "through the MATCHED pipeline; all pairs of G2(3,3,1) x 128 refs, G2(2,4,1), G3(2,2,2,1) x 128 refs, G3(1,3,3,1) x 64 refs (direct call + frame 1); "
+    "through the MATCHED pipeline; all pairs of G2(3,3,1) x 128 refs, G2(2,4,1), G3(2,2,2,1) x 128 refs, G3(1,3,3,1) x 64 refs (direct call + frame 1); every pair also with the masks in Fortran order, as transposed views and with negative / non-unit strides (same and mixed); "
     "thorough: G2(3,3,1)^2, G3(2,2,2,1)^2, G2(3,4,1) x 256, G3(2,2,3,1) x 128, G1(8,1)^2. non-trivial = the two borders differ; distinct by mask pair"
 )
 ASSUMPTIONS = ["brute-force distances with math.sqrt/fsum; comparison to 1e-9 relative", "masks given as bool and as uint8/int64 0-1 arrays"]
@@ -130,6 +130,11 @@ def run_case(case, acc):
     # other mask dtypes and label selection
     judge(_assd(acc, case, "uint8", rmk.astype(np.uint8), pm.astype(np.uint8)), "value_uint8")
     judge(_assd(acc, case, "sel", (rmk * 3).astype(np.uint8), (pm * 2).astype(np.int64).astype(np.uint8), 3, 2), "value_label_selection")
+    # memory layouts of the two masks (Fortran order, transposed view, negative strides, strided view; also mixed)
+    if len(shape) >= 2:
+        for lp, lr in (("F", "F"), ("F", "C"), ("C", "F"), ("rev", "strided"), ("strided", "rev")):
+            judge(_assd(acc, case, f"layout {lp}/{lr}", sc.apply_layout(rmk.astype(bool), lr), sc.apply_layout(pm.astype(bool), lp)), f"value_layout_{lp}_{lr}", {**case, "layout": [lp, lr]})
+        judge(_assd(acc, case, "transposed views", np.ascontiguousarray(rmk.T.astype(bool)).T, np.ascontiguousarray(pm.T.astype(bool)).T), "value_transposed_view")
     # embedding in a larger array (frame 1; full scopes also frame 3 and asymmetric offsets)
     frames = [1] if case["kind"] == "direct" else [1, 3]
     for fw in frames:
